@@ -78,6 +78,7 @@ func (v *Video) GenerateOutput(textOnly bool) string {
 	}
 
 	domutil.MakeAllSrcAttributesAbsolute(vNode, v.PageURL)
+	domutil.MakeAllSrcSetAbsolute(vNode, v.PageURL)
 	domutil.StripAttributes(vNode)
 	return dom.OuterHTML(vNode)
 }
